@@ -12,7 +12,9 @@ func (a *Analyzer) exec(ctx int, instr ssa.Instruction, st *State, depth int) []
 	s := st
 	switch v := instr.(type) {
 	case *ssa.BinOp:
-		a.execBin(ctx, v, s)
+		if extra := a.execBin(ctx, v, s); extra != nil {
+			return extra
+		}
 	case *ssa.UnOp:
 		a.execUn(ctx, v, s)
 	case *ssa.Convert:
@@ -159,7 +161,12 @@ func (a *Analyzer) exec(ctx int, instr ssa.Instruction, st *State, depth int) []
 	return []*State{s}
 }
 
-func (a *Analyzer) execBin(ctx int, v *ssa.BinOp, s *State) {
+func (a *Analyzer) execBin(ctx int, v *ssa.BinOp, s *State) (split []*State) {
+	a.execBin1(ctx, v, s, &split)
+	return split
+}
+
+func (a *Analyzer) execBin1(ctx int, v *ssa.BinOp, s *State, split *[]*State) {
 	switch v.Op {
 	case token.EQL, token.NEQ, token.LSS, token.LEQ, token.GTR, token.GEQ:
 		a.set(s, ctx, v, ABool{ctx: ctx, src: v})
@@ -208,6 +215,24 @@ func (a *Analyzer) execBin(ctx int, v *ssa.BinOp, s *State) {
 				return
 			}
 		case token.REM:
+			if !ly.isConst() && s.provesLE(konst(1).sub(ly)) && s.provesLE(lx.scale(-1)) {
+				// 0 <= x, 1 <= y: 0 <= r <= y-1; when moreover x <= y the result
+				// is x itself (x < y) or 0 (x == y): two states
+				if s.provesLE(lx.sub(ly)) {
+					s2 := s.clone()
+					s.addLE(lx.sub(ly).addK(1)) // x <= y-1
+					a.set(s, ctx, v, AInt{lx})
+					s2.addEQ(lx.sub(ly))
+					a.set(s2, ctx, v, AInt{konst(0)})
+					*split = []*State{s, s2}
+					return
+				}
+				r := a.freshFor(s, ctx, v).(AInt)
+				s.addLE(r.l.scale(-1))
+				s.addLE(r.l.sub(ly).addK(1))
+				a.set(s, ctx, v, r)
+				return
+			}
 			if ly.isConst() && ly.k > 0 {
 				r := a.freshFor(s, ctx, v).(AInt)
 				s.addLE(r.l.addK(-(ly.k - 1)))
